@@ -90,9 +90,12 @@ class Driver:
         if had_cfg and any(x[0] == "fw" and 0xC3 not in dict(x[1]) for x in self.m_comps[:cfg_pos]):
             self.untyped_before_cfg = True
         try:
-            self.f.set_config(c, iter(list(extra)) if len(c) % 2 else list(extra))  # Iterable[bytes]: one-shot iterators too
+            ex = list(extra)
+            self.f.set_config(c, iter(list(extra)) if len(c) % 2 else ex)  # Iterable[bytes]: one-shot iterators too
         except Exception as e:
             raise Violation("set_config raised %s: %s" % (type(e).__name__, e))
+        if ex != list(extra):
+            raise Violation("set_config changed the caller's list of extra blocks (%d -> %d blocks)" % (len(extra), len(ex)))
         self.n_set += 1
         if self.n_cfg_edit:
             self.n_set_after_edit += 1
